@@ -5,7 +5,11 @@
    failure, or the documented one-of / recurrent / switch error), and e is an Exception;
    r = SThrow e (run raises) only for a BaseException outside Exception that is a root cause, or the caller's own cancellation.
    Engine-internal artefacts (EInternal = KeyError & co, a helper task's CancelledError) are never a root cause of the reference,
-   hence never the outcome. Kind E: clean catalogue, every schedule. FALSE in general (known findings D9, D11, D12, D17). *)
+   hence never the outcome. Kind E: clean catalogue, every schedule. FALSE in general (known findings D9, D11, D12, D17).
+   Kind G (ALL programs, all schedules incl. cancellation, event managers that do not raise): run never raises an Exception
+   subclass -- what it raises is a BaseException outside Exception -- and what it reports as PipelineResult.error is an Exception
+   (C05_run_never_raises_an_exception_subclass) that was the error of a finished, not cancelled helper task at the moment run()
+   looked, or the pool-registry error (C05_reported_error_is_a_task_error): never a CancelledError of its own helpers. *)
 From MLPE Require Import Engine.Run Spec.Dataflow Proofs.ExecLemmas Explore.StateEq Explore.Erase Explore.Explorer Explore.Safe
      Catalogue.Programs Catalogue.Certified Proofs.CertLemmas.
 
@@ -39,6 +43,26 @@ Proof.
     + intros ->. discriminate H2.
 Qed.
 Print Assumptions C05_never_an_artefact.
+
+(* ---- kind G: ALL programs, ALL schedules incl. caller cancellation, event managers that do not raise ---- *)
+From MLPE Require Import Proofs.ErrAll.
+
+(* (the second disjunct of the first clause is the interpreter giving up -- fuel --, which never occurs on a compared run) *)
+Theorem C05_run_never_raises_an_exception_subclass :
+  forall P, (forall m ev n k, p_mgr_fault P m ev n k = false) ->
+  forall st, reachable P st ->
+    (forall e, main_state st = Some (TDone (SThrow e)) -> is_Exception e = false \/ exists k, e = XEng EOutOfFuel k) /\
+    (forall e, main_state st = Some (TDone (SResErr e)) -> is_Exception e = true).
+Proof. exact run_never_raises_an_exception_subclass_all_programs. Qed.
+Print Assumptions C05_run_never_raises_an_exception_subclass.
+
+(* [ORunDone alts] in the history: run() looked at its helper tasks and found the errors alts of the finished, not cancelled ones *)
+Theorem C05_reported_error_is_a_task_error :
+  forall P, (forall m ev n k, p_mgr_fault P m ev n k = false) ->
+  forall st e, reachable P st -> main_state st = Some (TDone (SResErr e)) ->
+    (exists alts, In (ORunDone alts) (st_trace st) /\ In e alts) \/ exists k, e = XEng EPoolNotReady k.
+Proof. exact reported_error_is_a_task_error_all_programs. Qed.
+Print Assumptions C05_reported_error_is_a_task_error.
 
 (* ---- kind F: ALL plain programs, ALL schedules incl. caller cancellation ----------------------------------------------------------
    what run reports as PipelineResult.error was raised by a node body of this program at the attempt it names (with some argument
